@@ -45,6 +45,12 @@ func runC19(c map[string]interface{}) []Event {
 	}
 	e := Event{"ev": "route", "route": []interface{}{}, "dist": -1, "time4": -1, "exact": false}
 	e["out"] = safely(func() {
+		// "slow": every speed is divided by 2^slow (exact), so that all of them are below one unit of length per unit of time;
+		// the times are multiplied back before they are reported
+		slow := 0
+		if v, ok := c["slow"]; ok {
+			slow = num(v)
+		}
 		net := route.NewNetwork(opt)
 		var lines []geom.LineString
 		from, to := arr(c["from"]), arr(c["to"])
@@ -65,7 +71,7 @@ func runC19(c map[string]interface{}) []Event {
 			l := lv.(map[string]interface{})
 			ln := c19Line(pos[num(l["u"])-1], pos[num(l["v"])-1], num(l["extra"]))
 			lines = append(lines, ln)
-			net.AddLink(ln, float64(num(l["speed"])))
+			net.AddLink(ln, math.Ldexp(float64(num(l["speed"])), -slow))
 		}
 		qf := geom.Point{X: float64(num(from[0])), Y: float64(num(from[1]))}
 		qt := geom.Point{X: float64(num(to[0])), Y: float64(num(to[1]))}
@@ -105,6 +111,7 @@ func runC19(c map[string]interface{}) []Event {
 			return int(math.Round(v))
 		}
 		e["dist"] = fin(dist)
+		tm = math.Ldexp(tm, -slow)
 		e["time4"] = fin(tm * 4)
 		e["exact"] = dist == math.Round(dist) && tm*4 == math.Round(tm*4)
 	})
